@@ -22,7 +22,13 @@ func (c *decrypt3k3yCmd) Run() error {
 		return fmt.Errorf("image is not encrypted")
 	}
 
-	imageWrapped, err := fs.NewEncryptedISO(c.Image, key, true)
+	imageDecrypted, err := fs.NewEncryptedISO(c.Image, key, true)
+	if err != nil {
+		return err
+	}
+
+	// also blank the 3k3y watermark and the embedded key: they describe the encrypted image
+	imageWrapped, err := fs.NewISO3k3y(imageDecrypted)
 	if err != nil {
 		return err
 	}
